@@ -986,6 +986,35 @@ class Visitor(ast.NodeVisitor):
 
         return generator_expr_func(**self._name_to_value)
 
+    def _visit_comprehension_parts(
+        self, parts: List[ast.expr], generators: List[ast.comprehension]
+    ) -> None:
+        """
+        Visit the parts of a comprehension to re-compute the values which do not depend on its variables.
+
+        Python evaluates only the iterable of the first ``for`` unconditionally. All the other parts
+        (the element, the iterables of the further ``for``'s and the ``if``'s) are evaluated once per iteration,
+        possibly never, so their speculative re-computation here must not fail the message generation.
+        """
+        for i, generator in enumerate(generators):
+            if i == 0:
+                self.visit(generator.iter)
+            else:
+                self._visit_without_failing(generator.iter)
+
+            for generator_if in generator.ifs:
+                self._visit_without_failing(generator_if)
+
+        for part in parts:
+            self._visit_without_failing(part)
+
+    def _visit_without_failing(self, node: ast.expr) -> None:
+        """Visit the node, but ignore the exceptions as Python itself might not evaluate the node at all."""
+        try:
+            self.visit(node)
+        except Exception:  # pylint: disable=broad-except
+            pass
+
     def visit_GeneratorExp(self, node: ast.GeneratorExp) -> Any:
         """Compile the generator expression as a function and call it."""
         # NOTE ABOUT PLACEHOLDERS AND RE-COMPUTATION:
@@ -1018,13 +1047,7 @@ class Visitor(ast.NodeVisitor):
         ):
             self._name_to_value[target_name] = PLACEHOLDER
 
-        self.visit(node.elt)
-
-        for generator in node.generators:
-            self.visit(generator.iter)
-
-            for generator_if in generator.ifs:
-                self.visit(generator_if)
+        self._visit_comprehension_parts(parts=[node.elt], generators=node.generators)
 
         self._name_to_value = old_name_to_value
 
@@ -1045,13 +1068,7 @@ class Visitor(ast.NodeVisitor):
         ):
             self._name_to_value[target_name] = PLACEHOLDER
 
-        self.visit(node.elt)
-
-        for generator in node.generators:
-            self.visit(generator.iter)
-
-            for generator_if in generator.ifs:
-                self.visit(generator_if)
+        self._visit_comprehension_parts(parts=[node.elt], generators=node.generators)
 
         self._name_to_value = old_name_to_value
 
@@ -1074,13 +1091,7 @@ class Visitor(ast.NodeVisitor):
         ):
             self._name_to_value[target_name] = PLACEHOLDER
 
-        self.visit(node.elt)
-
-        for generator in node.generators:
-            self.visit(generator.iter)
-
-            for generator_if in generator.ifs:
-                self.visit(generator_if)
+        self._visit_comprehension_parts(parts=[node.elt], generators=node.generators)
 
         self._name_to_value = old_name_to_value
 
@@ -1103,14 +1114,7 @@ class Visitor(ast.NodeVisitor):
         ):
             self._name_to_value[target_name] = PLACEHOLDER
 
-        self.visit(node.key)
-        self.visit(node.value)
-
-        for generator in node.generators:
-            self.visit(generator.iter)
-
-            for generator_if in generator.ifs:
-                self.visit(generator_if)
+        self._visit_comprehension_parts(parts=[node.key, node.value], generators=node.generators)
 
         self._name_to_value = old_name_to_value
 
